@@ -330,7 +330,9 @@ string JSON::serialize(uint32_t options, size_t indent_level) const {
 
     case 3: { // double
       string ret = string_printf("%g", this->as_float());
-      if (ret.find('.') == string::npos) {
+      // %g may produce exponent notation (e.g. 1e+20), which is already a
+      // float literal; appending ".0" to it would produce unparseable text
+      if ((ret.find('.') == string::npos) && (ret.find('e') == string::npos)) {
         return ret + ".0";
       }
       return ret;
